@@ -251,6 +251,23 @@ fn check_error(base: &Run, got: &Run, k: u64, kind: ErrorKind, loc: &mut Local) 
         }
         if !e.obs.is_eof() {
             usable = true;
+            // Whatever is returned after the error must not be made up from the partial data of the
+            // failed call: either the reader is finished (Eof), or it carries on with exactly what the
+            // fault-free run returns from the failed call on
+            // (the position *before* the resumed call may lie behind bytes the failed call had consumed)
+            let want = base.trace.get(j + (i - (j + 1)));
+            if !want.map_or(false, |w| w.obs == e.obs && w.after == e.after) {
+                return Err(format!(
+                    "error {:?} injected at refill call {} was reported by read call {}, but read call {} then returned {}, which is not what the input holds there (the fault-free run returns {} for the call that failed{}): an event fabricated from partial data",
+                    kind,
+                    k,
+                    j,
+                    i,
+                    e.show(),
+                    base.trace.get(j).map(|e| e.show()).unwrap_or_default(),
+                    if i > j + 1 { " and the matching later events after it" } else { "" }
+                ));
+            }
         }
     }
     if !got.trace.last().map_or(false, |e| e.obs.is_eof()) {
